@@ -32,9 +32,10 @@ RULE = ('one run = one hand played on one of the 12 predefined variants with ran
         'distinct (variant, parameters class, operation-class sequence) digests')
 ASSUMPTIONS = [
     'ref/var.py is the trusted statement of the twelve games (small/big bet streets, four-bet cap, facings, openings)',
-    'the models of C03, C10 and C02 (and their assumptions) are reused; rake off; cards known',
+    'the models of C03, C10 and C02 (and their assumptions) are reused; cards known; a third of the tables take a '
+    'percentage rake, on those the settlement model is not attached',
 ]
-BIAS = dict(variants=PREDEFINED_CODES, custom_num=0, chips=('int', 'fraction'), rakes=('none',), sbcs=(1, 1, 1, 2),
+BIAS = dict(variants=PREDEFINED_CODES, custom_num=0, chips=('int', 'fraction'), rakes=('none', 'none', 'pct'), sbcs=(1, 1, 1, 2),
             divmods=('default',))
 STRUCT = {'NL': 'NO_LIMIT', 'PL': 'POT_LIMIT', 'FL': 'FIXED_LIMIT'}
 
@@ -102,7 +103,10 @@ def run(ch, ctx):
     settle = SettleMonitor(cfg, types=list(v['hands']), prefix='C11.settle')
     world = None
     try:
-        world = World(ch, ctx, cfg, [bet, deal, settle], run_key=run_key_of(ch), muck_num=0, partial_show=False,
+        # a third of the tables are raked (the betting structure - the pot-sized raise in particular - must not depend on
+        # it); the settlement model runs with the rake off, so it follows the unraked tables only
+        monitors = [bet, deal, settle] if cfg['rake'] == 'none' else [bet, deal]
+        world = World(ch, ctx, cfg, monitors, run_key=run_key_of(ch), muck_num=0, partial_show=False,
                       runout_prefs=(None, 1),
                       profile=ch.choice('c11.profile', ('aggressive', 'balanced', 'balanced', 'passive')))
         static_check(cfg, world.state)
@@ -120,4 +124,5 @@ def run(ch, ctx):
     ctx.count('decisions_compared', bet.compared)
     ctx.count('split_game_two_halves', sum(1 for s in settle.result.get('shapes', []) if s[2] == 1))
     ctx.count('showdowns', 's' in seq)
+    ctx.count('raked_tables', cfg['rake'] != 'none')
     std_finish(world, ctx, 'r' in seq or 's' in seq)
